@@ -267,7 +267,8 @@ class ExprGen:
             'count("") == 0', 'avg(False) == 0', 'stddev("") == 0', 'min(0) == 0']
 
     def any_filter(self):
-        """mostly well-typed boolean filters; some that raise ExpressionError, some that raise something else"""
+        """mostly well-typed boolean filters; some that raise ExpressionError, some ill-typed ones (TypeError,
+        AttributeError inside the evaluator)"""
         rnd = self.rnd
         k = rnd.random()
         if k < .72:
@@ -283,10 +284,11 @@ class ExprGen:
                 return f'{self.boolean(1)} and {e}', 'ok'
             return f'{e} or {self.boolean(1)}', 'must_error'
         if k < .93:
+            # ill-typed: TypeError / AttributeError inside the evaluator -> must behave like ExpressionError
             e = rnd.choice(self.CRASH)
             w = rnd.random()
             if w < .5:
-                return e, 'ok'
+                return e, 'must_error'
             if w < .8:
                 return f'{self.boolean(1)} and {e}', 'ok'
             return f'{self.boolean(1)} or {e}', 'ok'
@@ -323,9 +325,6 @@ def gen_case(rnd, focus=None):
     ms, order = gen_merchants(rnd)
     g = ExprGen(rnd, ms)
     case = {'merchants': ms, 'order': order, 'globals': [], 'views': []}
-    crashy = rnd.random() < 0.18          # cases that may contain filters raising non-ExpressionErrors
-    if not crashy:
-        g.CRASH = ['category == 5']       # well-typed stand-in
     for _ in range(rnd.choice([0, 0, 1, 2, 3])):
         n, e, k = g.var_def([x[0] for x in case['globals']])
         case['globals'].append([n, e])
@@ -525,8 +524,8 @@ def oracle(case, results):
             for i, x in enumerate(t['views']):
                 if isinstance(x, str):
                     culprits.append([m['name'], names[i], x])
-        sig = 'C10/ill-typed-filter-aborts-run' if culprits and run['error'] in ('TypeError', 'AttributeError') else None
-        bad.append(('filter-error-aborts-run', sig, {'error': run, 'raised_by': culprits[:4]}))
+        # never a known finding: ExpressionEvaluator.evaluate re-raises every Exception as ExpressionError
+        bad.append(('filter-error-aborts-run', None, {'error': run, 'raised_by': culprits[:4]}))
         return bad
     got = {}
     for name, members, total, count in run['views']:
@@ -551,7 +550,7 @@ def oracle(case, results):
             bad.append(('membership-iff-filter', sig, {'view': v['name'], 'listed': members, 'filter_true_of': expect}))
         if total is None or total != sum(tot[x] for x in members) or count != len(members):
             bad.append(('view-total-is-sum', None, {'view': v['name'], 'total_ticks': total, 'count': count, 'members': members}))
-        if v.get('must_error') and members:
+        if v.get('must_error') and members and names.count(v['name']) == 1:
             bad.append(('filter-error-excludes', None, {'view': v['name'], 'listed': members}))
         shadowed = {n for n, _ in case['globals']} | {n for n, _ in v['vars']}
         if 'probe' in v and not (dup and names.count(v['name']) > 1) and v['probe'][0] not in shadowed:
